@@ -260,6 +260,7 @@ def job_earlystop_gm(accelerate, timeout_ms):
         gm._update()
         # tol = 0 stop: resid = |x+ - x|/alpha == 0, i.e. x+ == x.  x+ is the prox value px0.
         moved = gm.x - st["x_old"]
+        resid_code, step2 = gm.resid, sp.ip(moved, moved)
         names = sorted({b for (w, b, s_) in moved.d if b.startswith("px")})
         if len(names) != 1:
             raise core.Unsupported("unexpected shape of the GradientMethod step")
@@ -268,15 +269,16 @@ def job_earlystop_gm(accelerate, timeout_ms):
         x_stop = gm.x.copy()
         done = gm._done()
         gm._update()
-        return gm, x_stop, done
+        return gm, x_stop, done, resid_code, step2
     results = explore(run)
     inst = "accelerate=%s" % accelerate
 
     def post(r):
         if r.kind != "return":
             return [("no-exception", [], z3.BoolVal(False))]
-        gm, x_stop, done = r.value
-        return [("tol=0-stop-taken", [], as_bool(done)),
+        gm, x_stop, done, resid_code, step2 = r.value
+        return [("stop-criterion-vanishes-only-if-the-step-x+-x-vanishes", [step2.t >= 0], z3.Implies(core._lift(resid_code) == 0, step2.t == 0)),
+                ("tol=0-stop-taken", [], as_bool(done)),
                 ("early-stop=>further-update-leaves-x-unchanged", [], gm.x.same_vector(x_stop))]
     obs, covers = path_obligations("C15/earlystop/GradientMethod/%s" % inst, results, post, instance=inst, fn_record=rec)
     return check_obligations(obs, timeout_ms) + covers
@@ -291,6 +293,7 @@ def job_earlystop_pdhg(timeout_ms):
         sp = st["sp"]
         pd._update()
         moved = pd.x - st["x_old"]
+        resid_code, step2 = pd.resid, sp.ip(moved, moved)
         names = sorted({b for (w, b, s_) in moved.d if b.startswith("pg")})
         if len(names) != 1:
             raise core.Unsupported("unexpected shape of the PDHG primal step")
@@ -299,14 +302,15 @@ def job_earlystop_pdhg(timeout_ms):
         x_stop, u_stop = pd.x.copy(), pd.u.copy()
         done = pd._done()
         pd._update()
-        return pd, x_stop, u_stop, done
+        return pd, x_stop, u_stop, done, resid_code, step2
     results = explore(run)
 
     def post(r):
         if r.kind != "return":
             return [("no-exception", [], z3.BoolVal(False))]
-        pd, x_stop, u_stop, done = r.value
-        return [("tol=0-stop-taken", [], as_bool(done)),
+        pd, x_stop, u_stop, done, resid_code, step2 = r.value
+        return [("stop-criterion-vanishes-only-if-the-primal-step-vanishes", [step2.t >= 0], z3.Implies(core._lift(resid_code) == 0, step2.t == 0)),
+                ("tol=0-stop-taken", [], as_bool(done)),
                 ("early-stop=>state-is-a-fixed-point(x-and-u-unchanged-by-a-further-update)", [],
                  z3.And(pd.x.same_vector(x_stop), pd.u.same_vector(u_stop)))]
     obs, covers = path_obligations("C15/earlystop/PrimalDualHybridGradient", results, post, instance="plain", fn_record=rec)
